@@ -37,6 +37,12 @@ STRENGTH = {
  "C14-e": "(in-process hang watchdog, as for C12-b)",
  "C06-f": "iterators that panic part-way through a collecting constructor",
  "C07-f": "join inputs that panic in `poll` (`PanicOnce`) in the C07 scenarios",
+ "C11-f": "merge sources woken while a sibling is being polled; executor-style drain (poll only after a task wake)",
+ "C12-f": "`YieldGate` children (blocked, then self-waking, then ready) in the C12 alphabets",
+ "C14-f": "populations of stale waker-list entries (woken, then removed before the next poll)",
+ "C15-f": "refused pushes interleaved with polls and `extend` on full collections",
+ "C16-f": "upstream items that wake themselves while completing (`up_modes = [Gate, WakeReady]`)",
+ "C17-f": "(refused pushes and `extend`, as for C15-f)",
  "C08-f": "static Unpin matrix of the five adapters over a `!Unpin` upstream",
 }
 for d in sorted(glob.glob("/verif/seeded/C*")):
